@@ -1394,6 +1394,9 @@ class TaskScenario(ScenarioData):
                     all_available = False
                     break
 
+            if all_available and not self._teamLimitsOk(resources_to_book):
+                all_available = False
+
             if not all_available:
                 # Can't book - one or more resources unavailable
                 return
@@ -1499,6 +1502,36 @@ class TaskScenario(ScenarioData):
         for limits in self.getAllLimits():
             if not limits.ok(sbIdx, upper=True, resource=resource.id if resource else None):
                 return False
+        return True
+
+    def _teamLimitsOk(self, resources: list[Any]) -> bool:
+        """
+        Check that the limits shared by the members of a team have room for all of them.
+
+        Every member that is booked counts against the task limits (unless a limit names
+        another resource) and against the limits of the resource groups it belongs to.
+        Checking the members one by one would let the first members use up the room and
+        leave the rest of the team unbooked.
+        """
+        slot_idx = self.currentSlotIdx if self.currentSlotIdx is not None else 0
+
+        for limits in self.getAllLimits():
+            for limit in limits._limits:
+                if limit.resource is None and not limit.ok(slot_idx, True, None, len(resources)):
+                    return False
+
+        groups: dict[int, tuple[Any, int]] = {}
+        for resource in resources:
+            parent = resource.parent
+            while parent:
+                group, count = groups.get(id(parent), (parent, 0))
+                groups[id(parent)] = (group, count + 1)
+                parent = parent.parent
+        for group, count in groups.values():
+            group_limits = group.get("limits", self.scenarioIdx)
+            if count > 1 and group_limits and hasattr(group_limits, "ok") and not group_limits.ok(slot_idx, amount=count):
+                return False
+
         return True
 
     def incLimits(self, sbIdx: int, resource: Optional[Any] = None) -> None:
